@@ -1,2 +1,153 @@
-(* Props/C16.v — the property theorems of C16 and nothing else. *)
-From Verif Require Import Base Parser.
+(* Props/C16.v — the property theorems of C16 and nothing else.
+   C16: directive text means the same however it is written; nothing is silently altered. *)
+From Coq Require Import String.
+From Verif Require Import Base Parser ParserProofs.
+Open Scope N_scope.
+
+(* ---- round trip ---- *)
+(* a rule rendered from a structured description (targets with keys, regex keys, exclusions and
+   counts; an operator with arbitrary argument bytes; an action list whose values contain commas,
+   colons and escaped quotes) compiles back to exactly that description, in every admissible
+   rendering variation: letter case of the keyword and of the action names, optional quoting of
+   action values and of regex keys, padding around action names / values, extra blanks *)
+Theorem C16_roundtrip : forall mask v d, wf_desc d = true -> wf_rvar v d = true ->
+  evaluate_line (render_line mask v d) = LRule d.
+Proof. exact evaluate_line_render. Qed.
+Print Assumptions C16_roundtrip.
+
+(* the same for the whole configuration text (one line, with or without the final line feed) *)
+Theorem C16_roundtrip_config : forall mask v d, wf_desc d = true -> wf_rvar v d = true ->
+  (N.of_nat (List.length (render_line mask v d)) <? max_line) = true ->
+  parse_config [] (render_line mask v d) = Some [d] /\
+  parse_config [] (render_line mask v d ++ [cLF]) = Some [d].
+Proof. exact parse_config_render. Qed.
+Print Assumptions C16_roundtrip_config.
+
+Theorem C16_variation_invariant : forall mask1 v1 mask2 v2 d,
+  wf_desc d = true -> wf_rvar v1 d = true -> wf_rvar v2 d = true ->
+  evaluate_line (render_line mask1 v1 d) = evaluate_line (render_line mask2 v2 d).
+Proof. intros. rewrite !evaluate_line_render by assumption. reflexivity. Qed.
+Print Assumptions C16_variation_invariant.
+
+(* ---- the parts of the round trip, each over all inputs of its scanner ---- *)
+Theorem C16_operator_token_roundtrip : forall s rest, wf_esc s false = true ->
+  cut_quoted_string (cDQ :: escape_dq s ++ cDQ :: rest) = Some (cDQ :: escape_dq s ++ [cDQ], rest)
+  /\ unescape_quoted_string (escape_dq s) = s.
+Proof. intros s rest H. split; [now apply cut_quoted_roundtrip|apply unescape_escape]. Qed.
+Print Assumptions C16_operator_token_roundtrip.
+
+Theorem C16_targets_roundtrip : forall qs ts, ts <> [] -> forallb wf_target ts = true ->
+  option_map (map target_of_call) (parse_variables (render_targets qs ts)) = Some ts.
+Proof. exact parse_variables_render. Qed.
+Print Assumptions C16_targets_roundtrip.
+
+Theorem C16_actions_roundtrip : forall vs al,
+  al <> [] -> forallb wf_action al = true -> wf_avars vs al = true -> (count_disruptive al <= 1)%nat ->
+  parse_actions (render_actions vs al) = Some al.
+Proof. exact parse_actions_render. Qed.
+Print Assumptions C16_actions_roundtrip.
+
+(* ---- physical layout of ANY configuration (not only rendered ones) ---- *)
+(* a blank line or a comment line may be inserted between any two physical lines, also inside a
+   continuation, in any parser state *)
+Theorem C16_comment_blank_invariant : forall ev raw l1 l2 buf inbt g, skipped_line raw ->
+  ps_loop ev (l1 ++ raw :: l2) buf inbt g = ps_loop ev (l1 ++ l2) buf inbt g.
+Proof. intros. now apply ps_insert_skipped. Qed.
+Print Assumptions C16_comment_blank_invariant.
+
+(* indentation and trailing blanks: only the trimmed content of a physical line matters *)
+Theorem C16_indent_invariant : forall ev l1 l2 buf inbt g, map p_trim_space l1 = map p_trim_space l2 ->
+  ps_loop ev l1 buf inbt g = ps_loop ev l2 buf inbt g.
+Proof. intros. now apply ps_trim_ext. Qed.
+Print Assumptions C16_indent_invariant.
+
+Theorem C16_indent_trim : forall pad1 pad2 s, is_pad pad1 = true -> is_pad pad2 = true -> s <> [] ->
+  nsp (hd 0 s) = true -> p_trim_space (pad1 ++ s ++ pad2) = p_trim_space s.
+Proof. exact p_trim_space_indent. Qed.
+Print Assumptions C16_indent_trim.
+
+(* continuation: a line may be broken by backslash-newline in front of any piece that starts with
+   a byte that is neither blank nor '#' *)
+Theorem C16_continuation_invariant : forall ev raw1 raw2 raw a b rest buf g,
+  p_trim_space raw1 = a ++ [cBS] -> a <> [] -> (hd 0 a =? cHASH) = false ->
+  p_trim_space raw2 = b -> b <> [] -> (hd 0 b =? cHASH) = false ->
+  p_trim_space raw = a ++ b ->
+  ps_loop ev (raw1 :: raw2 :: rest) buf false g = ps_loop ev (raw :: rest) buf false g.
+Proof. exact ps_continuation. Qed.
+Print Assumptions C16_continuation_invariant.
+
+(* letter case of the directive keyword: any directive line *)
+Theorem C16_keyword_case_invariant : forall mask kw rest, no_byte cSP kw = true -> kw <> [] ->
+  (hd 0 kw =? cHASH) = false ->
+  evaluate_line (vary_case mask kw ++ cSP :: rest) = evaluate_line (kw ++ cSP :: rest).
+Proof. exact evaluate_line_keyword_case. Qed.
+Print Assumptions C16_keyword_case_invariant.
+
+(* ---- nothing is silently altered: what the scanners accept / refuse ---- *)
+(* the operator token that is cut off is a prefix of the input: nothing dropped, nothing altered *)
+Theorem C16_operator_token_lossless : forall s tok r, cut_quoted_string s = Some (tok, r) -> s = tok ++ r.
+Proof. exact cut_quoted_lossless. Qed.
+Print Assumptions C16_operator_token_lossless.
+
+Theorem C16_reject_unterminated_operator : forall body,
+  no_byte cDQ body = true -> cut_quoted_string (cDQ :: body) = None.
+Proof. exact cut_quoted_unterminated_rejected. Qed.
+Print Assumptions C16_reject_unterminated_operator.
+
+Theorem C16_reject_unknown_action : forall s k v,
+  In (k, v) (pa_split s) -> lookup_action (p_lower (p_trim_space k)) = None -> parse_actions s = None.
+Proof. exact parse_actions_unknown_rejected. Qed.
+Print Assumptions C16_reject_unknown_action.
+
+(* ---- refuted: accepted although not representable (the guards of wf_desc are necessary) ---- *)
+Local Open Scope string_scope.
+(* F25 c16-unclosed-quote-action *)
+Theorem C16_unclosed_quote_refuted : exists s al,
+  pa_unclosed (tl s) (hd 0 s) false = true /\ parse_actions s = Some al /\
+  al = [mk_action (str "id") (str "1") 1; mk_action (str "msg") (str "'abc,tag:x") 1].
+Proof.
+  exists (str "id:1,msg:'abc,tag:x"). eexists. split; [exact (proj1 unclosed_quote_witness)|].
+  split; [exact (proj2 unclosed_quote_witness)|reflexivity].
+Qed.
+Print Assumptions C16_unclosed_quote_refuted.
+
+(* F30 c16-slash-in-plain-key *)
+Theorem C16_slash_in_plain_key_refuted : exists vars,
+  parse_variables vars = Some [mk_tcall false false (str "ARGS") (str "/a/")] /\ vars = str "ARGS:a/b".
+Proof. exists (str "ARGS:a/b"). split; [exact (proj1 slash_in_plain_key_witness)|reflexivity]. Qed.
+Print Assumptions C16_slash_in_plain_key_refuted.
+
+(* F36 c16-trailing-backslash-value *)
+Theorem C16_trailing_backslash_refuted : exists s,
+  parse_actions s = Some [mk_action (str "id") (str "1") 1; mk_action (str "tag") (str "x\,deny") 1]
+  /\ s = str "id:1,tag:x\,deny".
+Proof. exists (str "id:1,tag:x\,deny"). split; [exact (proj1 trailing_backslash_witness)|reflexivity]. Qed.
+Print Assumptions C16_trailing_backslash_refuted.
+
+(* new findings of this check *)
+Theorem C16_quoted_plain_key_refuted : exists vars,
+  parse_variables vars = Some [mk_tcall false false (str "ARGS") (str "abc'")] /\ vars = str "ARGS:'abc'".
+Proof. exists (str "ARGS:'abc'"). split; [exact (proj1 quoted_plain_key_witness)|reflexivity]. Qed.
+Print Assumptions C16_quoted_plain_key_refuted.
+
+Theorem C16_unterminated_regex_key_refuted : exists vars,
+  parse_variables vars = Some [mk_tcall false false (str "ARGS") (str "/ab/")] /\ vars = str "ARGS:/abc".
+Proof. exists (str "ARGS:/abc"). split; [exact unterminated_regex_key_witness|reflexivity]. Qed.
+Print Assumptions C16_unterminated_regex_key_refuted.
+
+Theorem C16_dangling_continuation_refuted : exists text d,
+  parse_config [] (text ++ str " \")%list = Some [] /\ parse_config [] text = Some [d].
+Proof.
+  exists (str "SecRule ARGS ""@rx a"" ""id:1,deny"""). destruct (proj2 dangling_continuation_witness) as (d & Hd).
+  exists d. split; [exact (proj1 dangling_continuation_witness)|exact Hd].
+Qed.
+Print Assumptions C16_dangling_continuation_refuted.
+Local Close Scope string_scope.
+
+(* a physical line of 64 KiB or more silently ends the parse: everything after it is ignored *)
+Theorem C16_long_line_truncates_refuted : forall pre l post,
+  forallb (fun x => N.of_nat (List.length x) <? max_line) pre = true ->
+  (N.of_nat (List.length l) <? max_line) = false ->
+  scanner_lines (pre ++ l :: post) = pre.
+Proof. exact scanner_lines_truncates. Qed.
+Print Assumptions C16_long_line_truncates_refuted.
